@@ -122,7 +122,7 @@ func (e Enc) Paired(max int) Cfg {
 // ---- carriers --------------------------------------------------------------
 
 // Carriers are the message types an encoder must accept.
-var Carriers = []string{"[]byte", "string", "*bytes.Buffer", "*bytes.Reader", "*strings.Reader", "io.Reader", "io.Reader(data+EOF)", "[][]byte", "*bytes.Reader(partly read)"}
+var Carriers = []string{"[]byte", "string", "*bytes.Buffer", "*bytes.Reader", "*strings.Reader", "io.Reader", "io.Reader(data+EOF)", "[][]byte", "*bytes.Reader(part-read)"}
 
 // plainReader is an io.Reader and nothing else (no WriterTo, no Len).
 type plainReader struct {
@@ -183,7 +183,7 @@ func Carry(kind string, p []byte, rng *rand.Rand) interface{} {
 			parts = [][]byte{{}}
 		}
 		return parts
-	case "*bytes.Reader(partly read)":
+	case "*bytes.Reader(part-read)":
 		junk := make([]byte, 1+rng.Intn(5))
 		r := bytes.NewReader(append(junk, c...))
 		io.ReadFull(r, junk)
